@@ -38,7 +38,7 @@ type c14Plan struct {
 	Corrupt   string `json:"corrupt"` // "", dup-vertex, dup-tx, drop-parent, second-self-sealed, empty-tx, cut, emptied-in-place, unknown-parent-in-place
 	Pos       int    `json:"pos"`
 	AtGenesis bool   `json:"at_genesis"` // the in-place corruptions hit the self-sealed (genesis) vertex itself
-	Transport bool   `json:"transport"` // through the real LoadDag RPC over an in-memory connection
+	Transport bool   `json:"transport"`  // through the real LoadDag RPC over an in-memory connection
 	FollowUps int    `json:"follow_ups"`
 }
 
@@ -229,6 +229,10 @@ func c14Run(rt *rapid.T, p c14Plan, seed string) (m *lm, log []string, nontrivia
 		case "second-self-sealed":
 			tip := stream[i]
 			rw := m.w.Wallets[m.w.RogueWallet(0)]
+			if p.AtGenesis {
+				rw = m.w.Wallets[m.w.NodeWallet(0)] // the second self-sealed vertex comes from the very wallet that sealed genesis
+				m.label("c14:second-self-sealed-by-genesis-wallet")
+			}
 			tx := ref.MakeTx("self", spice.New(1, 0), nil, m.w.Wallets[1].Addr, rw, tip.CreatedAt.Add(time.Second))
 			v := ref.Seal(tx, tip.Hash, tip.Hash, tip.Weight+1, tip.CreatedAt.Add(2*time.Second), rw)
 			stream = append(stream, &v)
